@@ -50,8 +50,10 @@ theorem parseUnionMemberTypes_sound (fl : Flags) (fuel : Nat) (s : PS) (ts : Lis
 theorem parseDirectiveLocation_sound (fl : Flags) : ∀ s x s', parseDirectiveLocation fl s = .ok (x, s') →
     x.value ∈ Generated.ParserTables.directiveLocations ∧ (nameV x).check fl s.last s.toks = some (s'.last, s'.toks) := by
   intro s x s' h
-  simp only [parseDirectiveLocation, bind_ok, ite_ok, pure_ok, fail_ok, and_false, or_false] at h
-  obtain ⟨n, s1, hn, hm, hfin⟩ := h
+  simp only [parseDirectiveLocation, bind_ok, peek_ok, ite_ok, pure_ok, fail_ok, failAt_ok, failTokAt_ok, and_false,
+    or_false] at h
+  obtain ⟨st, s0, ⟨ts, h1, hs0⟩, n, s1, hn, hm, hfin⟩ := h
+  subst hs0
   cases hfin
   exact ⟨hm, parseName_sound fl _ _ _ hn⟩
 
@@ -203,7 +205,7 @@ theorem parseDirectiveDefinition_sound (fl : Flags) (fuel : Nat) : DefSound fl (
 
 theorem parseTypeSystemDefinition_sound (fl : Flags) (fuel : Nat) : DefSound fl (parseTypeSystemDefinition fl fuel) := by
   intro s d s' h
-  simp only [parseTypeSystemDefinition, bind_ok, peek_ok, ite_ok, fail_ok, and_false, or_false] at h
+  simp only [parseTypeSystemDefinition, bind_ok, peek_ok, ite_ok, fail_ok, failAt_ok, failTokAt_ok, and_false, or_false] at h
   obtain ⟨nx, s1, _, kwd, s2, hkw, h⟩ := h
   have hs : s2 = s := by
     obtain ⟨_, _, rfl⟩ := ‹∃ ts, s.toks = nx :: ts ∧ s1 = s›
